@@ -70,8 +70,8 @@ RD_RPY, WR_RPY = 0x52 | 0x80, 0x53 | 0x80
 
 def fill_values(t, fill, length, first=0):
     """Values of elements first .. first+length-1 of a tag of type t for recipe fill =
-    {'anchors': [...], 'stride': int, 'salt': int}.  Integers: anchors[i % k] + i*stride + salt wrapped into
-    the type's range (neighbours differ, all bytes vary).  BOOL: anchors[i % k] flipped on odd blocks / by salt.
+    {'anchors': [...], 'stride': int, 'salt': int}.  Integers: anchors[i % k] -/+ (i*stride + salt) % 65521, away from the nearer end of
+    the type's range, wrapped into it (neighbours differ, all bytes vary).  BOOL: anchors[i % k] flipped on odd blocks / by salt.
     Floats: full-range anchors on even indices, the exact index-identifying value i*stride+salt on odd ones."""
     anchors, stride, salt = fill['anchors'], fill['stride'], fill.get('salt', 0)
     k = len(anchors)
@@ -84,8 +84,12 @@ def fill_values(t, fill, length, first=0):
             v = float(a) if i % 2 == 0 else float(i * stride + salt)
             out.append(M.f32(v) if t == 'REAL' else v)
         else:
+            # the index-dependent offset moves the anchor away from the nearer end of the type's range, so that anchors at
+            # the extremes (ULINT >= 2**63, LINT near -2**63 ...) stay extreme for every index instead of wrapping to small values
             lo, hi = rc.INT_RANGES[t]
-            out.append((int(a) + i * stride + salt - lo) % (hi - lo + 1) + lo)
+            off = (i * stride + salt) % 65521
+            v = int(a) - off if int(a) > (lo + hi) // 2 else int(a) + off
+            out.append((v - lo) % (hi - lo + 1) + lo)
     return out
 
 
